@@ -598,6 +598,14 @@ def run(ctx):
     # with C16.R9
     from .c16 import builder_input_rule
     rules.append(builder_input_rule(ctx, "C14", "C14.R8"))
+    # what the output depends on must not include whether somebody formatted or hashed an element while the tree was
+    # being put together (logging level, a debugger): shared with C02.R3
+    from . import c02 as _c02i
+    from .c08 import _take as _take_i
+    r_i = Rule("C14", "C14.R9", "implicitly called element methods leave no state behind", floor=1,
+               necessary="a repr / hash that caches a partial path makes the XForm depend on the logging configuration")
+    _take_i(r_i, _c02i.run(ctx), "C02.R3", lambda c: c.startswith("implicit methods:"))
+    rules.append(r_i)
     return rules
 
 
